@@ -107,7 +107,7 @@ Proof.
   - apply (HoldW_same w); auto; rewrite ?Rm; auto. apply B.
 Qed.
 
-Lemma GoodW_R nw w w' : R nw w w' -> GoodW w -> GoodW w'.
+Lemma GoodW_R n nw w w' : R n nw w w' -> GoodW w -> GoodW w'.
 Proof. intros HR [A B]. split; [eapply R_DevInv; [apply stable_AllInv|exact HR|exact A]|eapply R_HoldW; eauto]. Qed.
 
 (** System initialisation *)
@@ -134,7 +134,7 @@ Proof.
   intros G NS. unfold init_dev. set (x := getd w d). destruct (is_holder (d_kind x)) eqn:HK; [|exact G].
   set (w1 := updd w d (fun y => dev_set_wait nw true true y)).
   assert (G1 : GoodW w1).
-  { eapply GoodW_R; [|exact G]. apply (R_dev nw w d _ _ (dp_set_wait nw true true)); [kr|exact I]. }
+  { eapply (GoodW_R MNeutral); [|exact G]. apply (R_dev nw MNeutral w d _ _ (dp_set_wait nw true true)); [kr|kn|ko|exact I]. }
   destruct (d_kind x) eqn:K; try exact G1.
   - (* processor *)
     destruct G1 as [A B]. split.
@@ -149,7 +149,7 @@ Proof.
       apply AllInv_init_restore; [apply (A d z Hz)|apply KZ|apply KZ].
     + apply HoldW_updd; [intro y; split; reflexivity|exact B].
   - (* source *)
-    eapply GoodW_R; [apply R_sched_finish|exact G1].
+    eapply (GoodW_R MNeutral); [apply R_sched_finish|exact G1].
 Qed.
 
 (** initialisation shuts nothing down *)
@@ -187,7 +187,7 @@ Definition NoShut (w : fw) : Prop := forall d, d_shut (getd w d) = false.
 Lemma init_world_good fuel nw w : GoodW w -> NoShut w -> GoodW (init_world fuel nw w).
 Proof.
   intros G NS. unfold init_world. set (w1 := rm_call w (rm_initialize nw)).
-  assert (G1 : GoodW w1) by (eapply GoodW_R; [apply (R_rm_quiet nw), rm_initialize_quiet|exact G]).
+  assert (G1 : GoodW w1) by (eapply (GoodW_R MNeutral); [apply (R_rm_quiet nw MNeutral), rm_initialize_quiet|exact G]).
   assert (NS1 : NoShut w1) by (intro d; unfold w1; rewrite (getd_other_fields w _ d (proj1 (rm_call_devs w _))); apply NS).
   generalize (map fst (f_devs w1)). intro l. revert G1 NS1. generalize w1. clear.
   induction l as [|d l IH]; intros w G NS; cbn; [exact G|].
@@ -257,7 +257,7 @@ Proof.
     + apply GoodW_clear. apply (run_good sc ws _ d s (Err s') G RN).
     + exact G.
   - destruct (apply_cmd ws (snd s) (CSched t prio (-5) (AUser k))); cbn; exact G.
-  - apply FIN. eapply GoodW_R; [apply R_run_uop|exact G].
+  - apply FIN. eapply (GoodW_R MNeutral); [apply R_run_uop|exact G].
 Qed.
 
 (** the states a scenario can reach: initialisation of a well-formed world, then any operations *)
